@@ -209,6 +209,19 @@ func NewSchema() *sqlgen.Schema {
 type R map[string]interface{}
 
 var strPool = []string{"", "a", "b", "ab", "A", "é", "x y", "0", "null"}
+// AddStrings extends the pool string columns are drawn from; a check calls it from an init
+// function, so that the pools (and with them the meaning of every seed) of the other checks
+// stay as they are.
+func AddStrings(s ...string) { strPool = append(strPool, s...) }
+
+// WithStrings replaces the pool for the duration of one generated case (rapid runs the cases of
+// a process one after the other); the returned function puts the previous pool back.
+func WithStrings(pool []string) func() {
+	prev := strPool
+	strPool = pool
+	return func() { strPool = prev }
+}
+
 var bytePool = []string{"", "a", "\x00", "\xff\xfe", "ab"}
 
 // WideTimes makes genTime also draw instants near the edges of MySQL's DATETIME range and of
